@@ -73,7 +73,7 @@ def config_suite(R):
     outcomes = collections.Counter()
     for l in obs:
         last = l.split()[-1]
-        outcomes[l.split()[0] + " " + (":".join(last.split(":")[:3]) if not last.startswith("ok:") and ":" in last else "ok" if last.startswith("ok:") else "value")] += 1
+        outcomes[l.split()[0] + " " + (":".join(last.split(":")[:2]) + (":" + last.split(":")[2][:34] if last.count(":") >= 2 else "") if not last.startswith("ok:") and ":" in last else "ok" if last.startswith("ok:") else "value")] += 1
     echo_bad = []
     by_input = {l.split(" => ")[0]: l for l in obs if l.startswith("CJ ")}
     checked = 0
@@ -155,4 +155,6 @@ def replay(R, payload):
     if payload.get("engine") == "cluster":
         from .. import clustersuite
         return clustersuite.replay_cluster(R, payload)
+    if payload.get("engine") == "config":
+        payload = dict(payload, args=[core.REPO])      # the engine reads Setup's literal from the tree under test
     return core.generic_replay(R, payload)
